@@ -37,7 +37,14 @@ impl ScannerCache {
     /// The Arc assures that the pointer is valid because it holds a reference to the object as
     /// long as the Arc is in the cache and thus alive.
     pub(crate) fn get(&mut self, modes: &[ScannerMode]) -> Result<ScannerImpl> {
+        #[cfg(feature = "verif_hooks")]
+        let _section = {
+            crate::verif::cache_event("enter", modes, self.cache.len());
+            crate::verif::CacheSection { modes }
+        };
         if let Some(scanner) = self.cache.get(modes) {
+            #[cfg(feature = "verif_hooks")]
+            crate::verif::cache_event("hit", modes, self.cache.len());
             // We need to clone the scanner because we need to return a new instance of the scanner.
             // This is because the scanner is mutable and we need to have a unique instance of the
             // scanner.
@@ -46,8 +53,12 @@ impl ScannerCache {
                 unsafe { (*std::sync::Arc::<ScannerImpl>::as_ptr(scanner)).clone() };
             Ok(cloned_scanner)
         } else {
+            #[cfg(feature = "verif_hooks")]
+            crate::verif::cache_event("miss", modes, self.cache.len());
             self.cache
                 .insert(modes.to_vec(), Arc::new(modes.try_into()?));
+            #[cfg(feature = "verif_hooks")]
+            crate::verif::cache_event("insert", modes, self.cache.len());
             Ok(self.get(modes).unwrap())
         }
     }
